@@ -217,29 +217,40 @@ def register(R, tier="quick"):
         ids = [s.name for s in env["segments"].items]
         return z3.Or(*[name == x for x in ids]) if ids else z3.BoolVal(False)
 
-    def doomed(env, k):
-        """file k is one clean_files may delete: a TOC of another generation, or a file of a segment that is not live;
-        never a dot file"""
+    def may_delete(env, k):
+        """file k is one clean_files is allowed to delete: a TOC of another generation, or a file of a segment that is
+        not live; never a dot file, never the current TOC, never a file of a live segment, never an unrelated file"""
         return z3.And(z3.Not(DOT(k)),
                       z3.Or(z3.And(ISTOC(k), GEN(k) != env["gen"]),
+                            z3.And(z3.Not(ISTOC(k)), ISSEG(k), z3.Not(live(env, SEGNAME(k))))))
+
+    def must_delete(env, k):
+        """file k is garbage a commit has to remove: an OLDER TOC, or a file of a segment that is not live (what a crashed
+        or superseded writer left behind)"""
+        return z3.And(z3.Not(DOT(k)),
+                      z3.Or(z3.And(ISTOC(k), GEN(k) < env["gen"]),
                             z3.And(z3.Not(ISTOC(k)), ISSEG(k), z3.Not(live(env, SEGNAME(k))))))
 
     def cf_post(I, env):
         st = env["storage"]
         k = z3.Int("ck")
-        return z3.ForAll([k], z3.Implies(z3.And(0 <= k, k < st.n), z3.Select(st.deleted, k) == doomed(env, k)))
+        inr = z3.And(0 <= k, k < st.n)
+        return z3.And(z3.ForAll([k], z3.Implies(z3.And(inr, z3.Select(st.deleted, k)), may_delete(env, k))),
+                      z3.ForAll([k], z3.Implies(z3.And(inr, must_delete(env, k)), z3.Select(st.deleted, k))))
 
     def cf_inv1(I, env):
         st, td = env["storage"], env["todelete"]
         k = z3.Int("c1")
         return z3.And(env["_i"] <= st.n, st.deleted == z3.K(IntS, z3.BoolVal(False)),
-                      z3.ForAll([k], td.has(k) == z3.And(0 <= k, k < env["_i"], doomed(env, k))))
+                      z3.ForAll([k], z3.Implies(td.has(k), z3.And(0 <= k, k < env["_i"], may_delete(env, k)))),
+                      z3.ForAll([k], z3.Implies(z3.And(0 <= k, k < env["_i"], must_delete(env, k)), td.has(k))))
 
     def cf_inv2(I, env):
         st, td = env["storage"], env["todelete"]
         k, j = z3.Int("c2"), z3.Int("cj")
         return z3.And(env["_j"] <= td.m,
-                      z3.ForAll([k], td.has(k) == z3.And(0 <= k, k < st.n, doomed(env, k))),
+                      z3.ForAll([k], z3.Implies(td.has(k), z3.And(0 <= k, k < st.n, may_delete(env, k)))),
+                      z3.ForAll([k], z3.Implies(z3.And(0 <= k, k < st.n, must_delete(env, k)), td.has(k))),
                       z3.ForAll([k], z3.Select(st.deleted, k) == z3.Exists([j], z3.And(0 <= j, j < env["_j"], td.E(j) == k))))
 
     R.contract(IX + ":clean_files", props=["C02", "C03"], setup=cf_setup,
@@ -256,5 +267,6 @@ def register(R, tier="quick"):
                assumptions=["segment lists of length 0, 1, 2 (membership test in a set of ids)",
                             "the two regular expressions are not interpreted (class A); delete_file succeeds or raises OSError "
                             "(a failed delete only leaves a file behind)"],
-               note="exactly the TOC files of other generations and the files of segments that are not in the new TOC are "
-                    "deleted; the new TOC, every file of a live segment, dot files and unrelated files are never touched")
+               note="safety: only TOC files of other generations and files of segments that are not in the new TOC are ever "
+                    "deleted - the new TOC, every file of a live segment, dot files and unrelated files are never touched; "
+                    "clean-up: every older TOC and every file of a dead segment is deleted")
